@@ -12,7 +12,7 @@ ENUM = True
 ADD, DROP, DESTROY, DESTROY_DELAY, SIZE, DESTROY_CONTAINER, READD = 1, 2, 3, 4, 5, 6, 7
 MODES = [(8, 0), (1, 1), (1, 2), (2, 3), (1, 4), (1, 5), (1, 6)]
 CHAIN = [(1, 2), (3, 5), (3, 6)]      # hand a child / a chain of children to the same container
-DELAYS = [0, 3, 100, 150]
+DELAYS = [0, 3, 100, 150]     # 0 is legitimate: destroyObjects(0ms) passes a zero limit to try_lock_for
 CW = ((12, 0), (3, 2))
 
 
@@ -40,10 +40,29 @@ def gen_chain(rng):
         progs[0].insert(0, [ADD, 0, rng.weighted(CHAIN), 0])
     progs[0].append([DESTROY_CONTAINER])
     sched = R.any_sched(rng, nt, 80, CW) if rng.chance(1, 2) else []
-    return {'cfg': [locked, 1, 0], 'progs': progs, 'sched': sched}
+    return {'cfg': [locked, 1, 0, 1 if rng.chance(1, 4) else 0], 'progs': progs, 'sched': sched}
+
+
+BULK = [(4, 63), (4, 64), (6, 65), (2, 129), (1, 385), (1, 400)]
+
+
+def gen_bulk(rng):
+    """size boundaries: N sole-owned objects handed over, then one sweep (it must reap them all: the next Size is 0), then
+    possibly the destruction of the container (every object gets its callback whatever N is); one thread, no re-entry"""
+    locked = 0 if rng.chance(1, 4) else 1
+    hascb = 1 if rng.chance(2, 3) else 0
+    n = rng.weighted(BULK)
+    p = [[ADD, 0, 0, 0] for _ in range(n)]
+    if n < 300 or rng.chance(1, 2):
+        p += [[DESTROY], [SIZE]]
+    if n >= 300 or rng.chance(1, 2):
+        p.append([DESTROY_CONTAINER])
+    return {'cfg': [locked, hascb, 0, 1 if rng.chance(1, 4) else 0], 'progs': [p], 'sched': []}
 
 
 def gen(rng, tier, spec):
+    if rng.chance(1, 40):
+        return gen_bulk(rng)
     if rng.chance(1, 6):
         return gen_chain(rng)
     locked = 0 if rng.chance(1, 4) else 1
@@ -91,7 +110,9 @@ def gen(rng, tier, spec):
         sched = R.sched_boundary(rng, nt, rng.below(nt), rng.range(1, 14), rng.range(0, 80), CW)
     else:
         sched = R.any_sched(rng, nt, 140, CW)
-    return {'cfg': [locked, hascb, len(throws)] + throws, 'progs': progs, 'sched': sched}
+    # element kind 1: trivially destructible element with a custom shared_ptr deleter as the user code (the driver's Y)
+    kind = 1 if rng.chance(1, 4) else 0
+    return {'cfg': [locked, hascb, len(throws)] + throws + [kind], 'progs': progs, 'sched': sched}
 
 
 
@@ -294,6 +315,35 @@ def mon_op_unlocked(case, lines):
     return None
 
 
+def mon_sweep_complete(case, lines):
+    """one thread, no client owners, no double adds, no user code that adds: a sweep that got the lock reaps every object
+    present, so destroyObjects() returns 0 and a following size() is 0"""
+    progs = case['progs']
+    if len(progs) != 1:
+        return None
+    for op in progs[0]:
+        if op[0] == READD or (op[0] == ADD and (op[1] != 0 or op[2] in (2,) or op[2] >= 5 or op[3] in (2,) or op[3] >= 5)):
+            return None
+    idx, swept = -1, False
+    for i, l in enumerate(lines):
+        if len(l) != 5 or l[0] < 0:
+            continue
+        t, k, o, v, m = l
+        if k == K['INVOKE']:
+            idx += 1
+        elif k == K['RET'] and 0 <= idx < len(progs[0]):
+            op = progs[0][idx][0]
+            if op in (DESTROY, DESTROY_DELAY) and v != -1:
+                if v != 0:
+                    return 'line %d: the sweep left %d sole-owned objects behind (nothing else owns or adds objects)' % (i, v)
+                swept = True
+            elif op == SIZE and swept and v != 0:
+                return 'line %d: size() is %d after a complete sweep' % (i, v)
+            elif op == ADD:
+                swept = False
+    return None
+
+
 def mon_lost_on_throw(case, lines):
     """C20: after a sweep ended by a callback's exception every handed-over object that is still referenced elsewhere must
     still be in the container: no destruction by a client Drop while the container lives, and the final size accounts
@@ -314,6 +364,6 @@ def mon_unlocked_access(case, lines):
     return _scan(case, lines)['unlocked']
 
 
-MONITORS = {'lost_on_throw': mon_lost_on_throw, 'unlocked_access': mon_unlocked_access, 'op_unlocked': mon_op_unlocked, 'destroyed_twice': mon_destroyed_twice, 'destroyed_while_owned': mon_destroyed_while_owned,
+MONITORS = {'sweep_complete': mon_sweep_complete, 'lost_on_throw': mon_lost_on_throw, 'unlocked_access': mon_unlocked_access, 'op_unlocked': mon_op_unlocked, 'destroyed_twice': mon_destroyed_twice, 'destroyed_while_owned': mon_destroyed_while_owned,
             'user_code_under_lock': mon_user_code_under_lock, 'callback': mon_callback, 'ledger': mon_ledger,
             'progress': mon_progress}
